@@ -33,7 +33,9 @@ def systematic():
     pre = [{"op": "save", "user": "alice"}, {"op": "save", "user": "bob"}, {"op": "sign", "user": "alice"},
            {"op": "sign", "user": "bob"}, {"op": "sync", "k": 0}, {"op": "save", "user": "alice"}, {"op": "delete", "user": "bob"},
            {"op": "save", "user": "carol"}, {"op": "unsign", "user": "alice"}, {"op": "sign", "user": "carol"}]
-    out = []
+    out = [{"steps": [{"op": "save", "user": "bob"}, {"op": "resave", "user": "bob"}, {"op": "delete", "user": "bob"}, {"op": "resave", "user": "bob"},
+                      {"op": "sync", "k": 0}, {"op": "delete", "user": "bob"}, {"op": "sync", "k": 0}, {"op": "resave", "user": "bob"}, {"op": "sync", "k": 0}],
+            "origin": "same-profile-saved-again-after-a-delete"}]
     for k in range(0, 24):
         out.append({"steps": pre + [{"op": "sync", "k": k}, {"op": "sync", "k": 0}], "origin": "fault-at-%d" % k})
     # ... and at every operation on the primary: statements and single row fetches (a source connection that dies in the
